@@ -136,6 +136,8 @@ func Families() []Named {
 		// an empty rule reduced at a depth that grows with the input (right recursion with an empty base; nesting)
 		{"right-rec-empty-base", Parse("L", abc[:1], "L: TA L | ")},
 		{"nested-optional", Parse("S", nil, "S: '(' O ')' ; O: | S")},
+		// a token named like identifiers of the generated code (`c` is the parameter of translate, `conv` its result)
+		{"token-named-c", Parse("S", []string{"a", "b", "c", "conv", "d"}, "S: S item | item ; item: a | b | c | conv d")},
 		// bison's %precedence line (a level without associativity) for the unary operator
 		{"precedence-directive", Parse("E", []string{"TA", "TU"}, "E: E '+' E | E '*' E | '-' E %prec TU | '(' E ')' | TA").
 			WithPrec("left '+'", "left '*'", "precedence TU")},
@@ -157,6 +159,8 @@ func BigFamilies() []Named {
 		// an automaton with more than 300 states, every one of them entered by a terminal
 		// (state numbers reach the neighbourhood of the codes used for "error" and "accept")
 		{"trie-256", Trie(abc[:4], 4)},
+		// a rule with more than 256 right-hand-side symbols, a nonterminal behind position 256
+		{"rhs-258", LongRule(256)},
 	}
 }
 
@@ -187,4 +191,10 @@ type Named2 struct {
 	NoEdits bool
 	// Epilogue: the program section of the text when it is known exactly ("" = unknown)
 	Epilogue string
+}
+
+// LongRule: S: X ; X: TA^n Y TC ; Y: TA | TB  (the rule for X has n+2 symbols).
+func LongRule(n int) *Spec {
+	body := strings.Repeat("TA ", n)
+	return Parse("S", abc[:3], "S: X ; X: "+body+"Y TC ; Y: TA | TB")
 }
